@@ -539,6 +539,22 @@ func c01RunCaseOnce(c *mc.Ctx, ops []string, thorough bool, report func(sig, wha
 	warm, warmPts, _ := exec(in.w.R, devSpec{})
 	genesisGap = young && k == 0 // the reference restarted right after genesis, the warm node never did
 	compare(ref, warm, "restart", "never-restarted", "the node was never restarted during the history")
+	// pipelined delivery: the node gets the last two blocks back to back - the real pre-execute
+	// stage (its own goroutine) handles the last block BEFORE the execute stage has run the one
+	// before it. What the pre-execute stage computes must not depend on that.
+	if k >= 1 {
+		if in1 := replay(k-1, -1); in1 != nil {
+			txsPrev, okPrev := in1.build(hist[k-1])
+			if okPrev {
+				w1 := in1.w
+				_, res2 := w1.R.ExecTwoPipelined(txsPrev, w1.TS+1000000000, txs, ts)
+				c.Add("block_executions", 2)
+				c.Add("pipelined_deliveries", 1)
+				compare(ref, c01Fingerprint(w1.R, res2), "schedule", "pipelined-delivery", "the pre-execute stage handled the block before the execute stage had run the previous block (both delivered back to back)")
+			}
+			in1.w.R.Close()
+		}
+	}
 	// restart before each earlier block
 	for j := 0; j < k; j++ {
 		in2 := replay(k, j)
@@ -684,7 +700,7 @@ func init() {
 		c.Set("states", c.Get("histories"))
 		c.Set("transitions", c.Get("block_executions"))
 		c.Set("traces_validated_against_impl", c.Get("block_executions"))
-		c.Set("rule", fmt.Sprintf("all histories of macro blocks %v up to depth %d on the proof world (appchains A, B, F(fabric rule), W(wasm rule), remote hub) plus 5 histories directly after genesis; for the last block of each history (every prefix is a history): reference execution on a replica restarted just before the block vs never-restarted replica, restart before each earlier block, purged account cache (cold and warm), parallel proof mode, wall clock shifted by -400d/+36h, and one deviation per execution at every dynamic range-over-map (all permutations up to 4 keys; reversal, rotations and adjacent transpositions above) and every fork-join section (all serial orders up to 4 goroutines); oracle: identical block hash, state/tx/receipt/timeout roots, parent hash, bloom, every receipt, interchain/timeout/multi-tx counters and L2 roots, and persisted state digest", c01Ops, c01Depth(c.Tier)))
+		c.Set("rule", fmt.Sprintf("all histories of macro blocks %v up to depth %d on the proof world (appchains A, B, F(fabric rule), W(wasm rule), remote hub) plus 5 histories directly after genesis; for the last block of each history (every prefix is a history): reference execution on a replica restarted just before the block vs never-restarted replica, restart before each earlier block, purged account cache (cold and warm), parallel proof mode, wall clock shifted by -400d/+36h, pipelined delivery of the last two blocks (the real pre-execute stage handles the last block before the execute stage has run the one before it), and one deviation per execution at every dynamic range-over-map (all permutations up to 4 keys; reversal, rotations and adjacent transpositions above) and every fork-join section (all serial orders up to 4 goroutines); oracle: identical block hash, state/tx/receipt/timeout roots, parent hash, bloom, every receipt, interchain/timeout/multi-tx counters and L2 roots, and persisted state digest", c01Ops, c01Depth(c.Tier)))
 		c.Assume("map-order and fork-join deviations are explored one per execution (deviation bound 1); goroutine schedules are the serial orders of the forked bodies of each fork-join section (bodies interact only through a mutex-protected result map or write disjoint stores); preemption inside a body is not explored")
 		c.Assume("restart = reopening ledger and executor on a copy of the persisted data (chain store, state store, blockfile); crash points inside a block are C11's subject")
 		if c.Get("deviating_executions") == 0 || c.Get("histories") == 0 {
